@@ -121,11 +121,17 @@ func c14SortedIDs(d *ring.Desc) []string {
 // c14Ring runs all observations for one ring descriptor.
 func c14Ring(e *env, d *ring.Desc, za bool, rf int, opName string, ids []string, keys []uint32, tile bool) {
 	cfg := ring.Config{HeartbeatTimeout: time.Hour, ReplicationFactor: rf, ZoneAwarenessEnabled: za}
-	descStr := encDesc(d)
 	rg, err := ring.VerifNewRing(cfg, cloneDesc(d), nil)
 	if err != nil {
 		panic(err)
 	}
+	c14Observe(e, "C14.inst", "C14.tile", "", rg, d, za, rf, opName, ids, keys, tile)
+}
+
+// c14Observe runs the observations on rg, a ring (or sub-ring) whose members are the entries of d.
+// extra is appended to the configuration field (sub-rings: how the sub-ring was obtained).
+func c14Observe(e *env, cmdInst, cmdTile, extra string, rg ring.ReadRing, d *ring.Desc, za bool, rf int, opName string, ids []string, keys []uint32, tile bool) {
+	descStr := encDesc(d)
 	op := ring.Write
 	if opName == "N" {
 		op = c14OpAll
@@ -170,7 +176,7 @@ func c14Ring(e *env, d *ring.Desc, za bool, rf int, opName string, ids []string,
 		if len(keys) > 0 && err == nil {
 			os = strings.Join(owners, ",")
 		}
-		e.emit("C14.inst", descStr, zaS+","+itoa(rf)+","+opName+","+id, u32s(keys), c14Ranges(tr, err), c14Bits(tr, err, keys), os)
+		e.emit(cmdInst, descStr, zaS+","+itoa(rf)+","+opName+","+id+extra, u32s(keys), c14Ranges(tr, err), c14Bits(tr, err, keys), os)
 	}
 	if tile {
 		all := c14SortedIDs(d)
@@ -179,7 +185,82 @@ func c14Ring(e *env, d *ring.Desc, za bool, rf int, opName string, ids []string,
 			tr, err := rg.GetTokenRangesForInstance(id)
 			ps[i] = id + "=" + c14Ranges(tr, err)
 		}
-		e.emit("C14.tile", descStr, zaS+","+itoa(rf), "-", strings.Join(ps, ";"))
+		e.emit(cmdTile, descStr, zaS+","+itoa(rf)+extra, "-", strings.Join(ps, ";"))
+	}
+}
+
+// c14Subrings: ranges vs. ownership and tiling on the SUB-RINGS returned by ShuffleShard. The sub-ring is
+// observed through the ReadRing it returns; its members are read from the implementation (VerifSubringIDs) and
+// the line carries the descriptor restricted to them (the model treats the sub-ring as the ring of its members).
+//
+//	C14.sinst <member desc> <za,rf,op,id,shard-identifier,shard-size,parent-size> <keys> || as C14.inst
+//	C14.stile <member desc> <za,rf,shard-identifier,shard-size,parent-size> <-> || as C14.tile
+func c14Subrings(e *env) {
+	r := newRng(e.seed, 1406)
+	zoneNames := []string{"a", "b", "c"}
+	n := 700 * e.scale
+	for c := 0; c < n; c++ {
+		nz := 2 + r.intn(2)
+		d := ring.NewDesc()
+		used := map[uint32]bool{}
+		withMax := r.chance(2, 3)
+		k := 0
+		for z := 0; z < nz; z++ {
+			ni := 1 + r.intn(3)
+			for j := 0; j < ni; j++ {
+				id := "i" + itoa(k)
+				inst := ring.InstanceDesc{Id: id, Addr: "a" + itoa(k), State: ring.ACTIVE, Zone: zoneNames[z], Timestamp: c14Heartbeat}
+				nt := 1 + r.intn(3)
+				for t := 0; t < nt; t++ {
+					for tries := 0; tries < 50; tries++ {
+						var tok uint32
+						switch {
+						case withMax && !used[c14Max] && r.chance(1, 2):
+							tok = c14Max
+						case r.chance(3, 4):
+							tok = pick(r, boundaryTokens)
+						default:
+							tok = r.u32()
+						}
+						if used[tok] {
+							continue
+						}
+						used[tok] = true
+						inst.Tokens = append(inst.Tokens, tok)
+						break
+					}
+				}
+				sort.Slice(inst.Tokens, func(a, b int) bool { return inst.Tokens[a] < inst.Tokens[b] })
+				if r.chance(1, 6) {
+					inst.ReadOnly = true
+					inst.ReadOnlyUpdatedTimestamp = 10
+				}
+				d.Ingesters[id] = inst
+				k++
+			}
+		}
+		cfg := ring.Config{HeartbeatTimeout: time.Hour, ReplicationFactor: nz, ZoneAwarenessEnabled: true}
+		rg, err := ring.VerifNewRing(cfg, cloneDesc(d), nil)
+		if err != nil {
+			panic(err)
+		}
+		sizes := []int{0, 1 + r.intn(3), nz, 100}
+		for _, size := range []int{sizes[r.intn(len(sizes))], sizes[r.intn(len(sizes))]} {
+			ident := "tenant-" + itoa(r.intn(4))
+			sub := rg.ShuffleShard(ident, size)
+			members := ring.VerifSubringIDs(sub)
+			sort.Strings(members)
+			md := ring.NewDesc()
+			for _, id := range members {
+				md.Ingesters[id] = d.Ingesters[id]
+			}
+			if len(members) == 0 {
+				continue
+			}
+			keys := c14Keys(r, c14AllTokens(md), 12, 2)
+			extra := "," + ident + "," + itoa(size) + "," + itoa(len(d.Ingesters))
+			c14Observe(e, "C14.sinst", "C14.stile", extra, sub, md, true, nz, "W", members, keys, true)
+		}
 	}
 }
 
@@ -616,4 +697,5 @@ func runC14(e *env) {
 	c14RandomInst(e)
 	c14RandomPart(e)
 	c14Includes(e)
+	c14Subrings(e)
 }
